@@ -66,12 +66,18 @@ def handlers : List (String × Handler) := [
         | .error => "error"
       | _, _, _, _ => "err args"
     | _ => "err args"),
+  -- names.fold kind cfg ((name 0|1) …) → ok name alias any name alias any …   (1 = boolean schema)
   ("names.fold", fun
-    | [k, c, ns] =>
-      match kind? k, cfg? c, ns.strs? with
-      | some k, some c, some ns =>
-        match foldFields pyEnv k c ns [] with
-        | .ok fs => "ok" ++ String.join (fs.map fun fa => " " ++ encodeStr fa.1 ++ " " ++ encOpt fa.2)
+    | [k, c, .list ps] =>
+      match kind? k, cfg? c, ps.mapM (fun
+        | .list [n, b] => match n.str?, b.bool? with
+          | some n, some b => some (n, b)
+          | _, _ => none
+        | _ => none) with
+      | some k, some c, some ps =>
+        match foldProps pyEnv k c ps [] with
+        | .ok (fs, _) => "ok" ++ String.join (fs.map fun f =>
+            " " ++ encodeStr f.1.1 ++ " " ++ encOpt f.1.2 ++ " " ++ b2s f.2)
         | .outOfFuel => "fuel"
         | .error => "error"
       | _, _, _ => "err args"
